@@ -56,7 +56,7 @@ Judge(o) ==
         ELSE IF o.outcome # "value" THEN "unexpected outcome " \o o.outcome
         ELSE IF o.vtype \notin Declared(o) THEN "the value has type " \o o.vtype
         ELSE IF o.t = "float" /\ ~o.finite THEN "a non-finite value reached the lines"
-        ELSE IF o.t = "integer" /\ Len(Strip(o.s)) <= 9 /\ c.val # o.ival THEN "the value is not what the text denotes"
+        ELSE IF o.t = "integer" /\ c.exact /\ c.val # o.ival THEN "the value is not what the text denotes"
         ELSE "")
 
 VARIABLE k
